@@ -2,6 +2,7 @@ CONSTANTS
   Threads = {"t1", "t2", "t3"}
   ChanCap = 2
   MaxReq = 3
+  SendRule = "refuse"
   PopRule = "unchecked"
 SPECIFICATION Spec
 INVARIANT NoPanic
